@@ -99,7 +99,25 @@ def rule_S2(ctx, rid='S2'):
             other = sides[1] if dep[0] else sides[0]
             n += 1
             txt = unparse(other)
-            ok = txt in ('self.bounds[index].log_v', 'self.log_v_all[index]')
+            # names used to select the record that is replaced (pop / np.delete / slice)
+            idx_names = set()
+            for x in ast.walk(f.node):
+                if isinstance(x, ast.Call) and isinstance(x.func, ast.Attribute) and \
+                        x.func.attr == 'pop' and x.args and isinstance(x.args[0], ast.Name):
+                    idx_names.add(x.args[0].id)
+                if isinstance(x, ast.Call) and dotted(x.func) == 'np.delete' and \
+                        len(x.args) > 1 and isinstance(x.args[1], ast.Name):
+                    idx_names.add(x.args[1].id)
+            ok = False
+            o = other
+            if isinstance(o, ast.Attribute) and o.attr == 'log_v':
+                o = o.value
+                want = 'bounds'
+            else:
+                want = 'log_v_all'
+            if isinstance(o, ast.Subscript) and isinstance(o.slice, ast.Name) and \
+                    o.slice.id in idx_names and dotted(o.value) == 'self.' + want:
+                ok = True
             ctx.ob(rid, 'Union.split:children-vs-parent-volume', ok, f.where(t.ast),
                    'the children are compared with the volume of the ellipsoid being split'
                    if ok else 'the children are compared with `%s`, not with the volume of the '
